@@ -73,7 +73,7 @@ def decorate(g, rnd, actions=True, plain=False):
                 taken.add(num)
                 next_num += rnd.choice([1, 1, 2, 10])
             nums[i] = num
-            if i in prec_of and style < 0.25 and not tag and num is None:
+            if i in prec_of and num is None and ((style < 0.25 and not tag) or t.get('declared') is False):
                 declared_via_prec.add(i)
             else:
                 pending.append((i, tag, num))
